@@ -9,7 +9,7 @@ exactly; the sync step applies each computed update to its own tick index.
 Not decided: the sum equality over histories; the tick-array search (C10)."""
 from analysis import cfg, atoms as A, preach, writes
 from analysis.ir import callee_path, AnchorMissing
-from analysis.prov import prov_of, strip, leaves, subterms, show
+from analysis.prov import prov_assuming, prov_of, strip, leaves, subterms, show
 from analysis.match import is_param, is_field, is_call, const_val, sh, mentions
 from rules.common import calls_to, ends, argname_mismatches, arg_name
 from rules import swaploop as SL
@@ -175,7 +175,19 @@ def R3_tick_polarity(run):
                     # that side returns the default update: no net computation reachable
                     r = cfg.reach(fn, tgt)
                     calls = [b for b in r if fn.blocks[b]["t"]["k"] == "call" and (callee_path(fn.blocks[b]["t"]) or "").endswith(("checked_add", "checked_sub"))]
-                    zero_gross = not calls
+                    # ... and what it returns is the default value, not a copy of the stored tick
+                    other = at.false_targets[0] if c[0] == "Eq" else at.true_targets[0]
+                    excl = r - cfg.reach(fn, other)
+                    pva = prov_of(fn)
+                    vals = []
+                    for d_ in pva.defs.get(0, []):
+                        if d_[0] in excl and d_[2] is None:
+                            l_ = strip(pva._site(d_, 0))
+                            if l_[0] == "agg" and l_[2] == "Ok":
+                                vals.append(strip(dict(l_[3])["0"]))
+                    is_default = lambda v: (v[0] == "call" and v[1].endswith("::default") and not v[2]) or \
+                        (v[0] == "agg" and all(const_val(x) == 0 or (strip(x)[0] in ("array", "repeat")) for _, x in v[3]))
+                    zero_gross = not calls and len(vals) == 1 and is_default(vals[0])
         run.check("R3", "delta-zero-noop[%s]" % short, zero_delta, "%s: liquidity_delta == 0 is no longer a no-op branch" % path, loc=fn.loc(), detail="delta == 0 => unchanged")
         run.check("R3", "gross-zero-deinit[%s]" % short, zero_gross, "%s: gross == 0 does not return the default (uninitialised) update" % path, loc=fn.loc(), detail="gross == 0 => TickUpdate::default()")
 
